@@ -642,7 +642,7 @@ def _build(N, shell, commands, subpos, consts):
     byid = dict((x["id"], x) for x in lits)
 
     def label(kind, i, lv):
-        l = {"k": kind, "t": "", "d": "", "hd": False, "lv": lv, "sub": 0}
+        l = {"k": kind, "t": "", "d": "", "hd": False, "lv": lv, "sub": 0, "iid": i}
         if kind == "lit":
             if i in byid:
                 l.update(t=byid[i]["t"], d=byid[i]["d"], hd=byid[i]["hd"])
